@@ -476,4 +476,53 @@ theorem sendInReplyTo_target (s : Sess) (m : OutMsg) (h : resetLogon m = false) 
 theorem doReject_target (s : Sess) (m : InMsg) (r : Nat) (t : Option Nat) (b : Bool) : (doReject s m r t b).store.target = s.store.target :=
   sendInReplyTo_target s _ (resetLogon_rejectMsg _ _ _ _ _)
 
+/-! ## ResetSeqTime (CheckResetTime) -/
+
+/-- the crossing test, as arithmetic: today's reset instant lies in (last check, now] -/
+theorem crossedReset_iff (rs : Nat) (last now : Int) :
+    crossedReset rs last now = true ↔ last < resetInstant rs now ∧ resetInstant rs now ≤ now := by
+  unfold crossedReset
+  simp
+
+/-- today's reset instant is the configured second of the (UTC) day `now` lies in -/
+theorem resetInstant_day (rs : Nat) (now : Int) (h : rs < 86400) :
+    resetInstant rs now / 86400 = now / 86400 ∧ resetInstant rs now % 86400 = rs := by
+  unfold resetInstant
+  omega
+
+/-- the taken branch of CheckResetTime -/
+theorem checkResetTime_crossed (s : Sess) (now last : Int) (rs : Nat) (hrs : s.cfg.resetSeqTime = some rs)
+    (hl : s.lastCheckedReset = some last) (hc : s.st.connected = true) (hx : crossedReset rs last now = true) :
+    checkResetTime s now = (sendLogonInReplyTo s true).setLastChecked now := by
+  unfold checkResetTime
+  simp only [hrs, hl, hc, hx, Bool.not_true, Bool.false_eq_true, if_false, if_true]
+
+/-- every other branch: only the clock of the last check may change -/
+theorem checkResetTime_quiet (s : Sess) (now : Int)
+    (h : s.cfg.resetSeqTime = none ∨ s.lastCheckedReset = none ∨ s.st.connected = false
+         ∨ (∀ rs last, s.cfg.resetSeqTime = some rs → s.lastCheckedReset = some last → crossedReset rs last now = false)) :
+    checkResetTime s now = s ∨ checkResetTime s now = s.setLastChecked now := by
+  unfold checkResetTime
+  split
+  · exact Or.inl rfl
+  · rename_i rs hrs
+    split
+    · exact Or.inr rfl
+    · rename_i last hl
+      split
+      · exact Or.inr rfl
+      · rename_i hc
+        rcases h with h | h | h | h
+        · rw [h] at hrs; cases hrs
+        · rw [h] at hl; cases hl
+        · rw [h] at hc; simp at hc
+        · rw [h rs last hrs hl]; exact Or.inr rfl
+
+theorem checkResetTime_records (s : Sess) (now : Int) (rs : Nat) (hrs : s.cfg.resetSeqTime = some rs) :
+    (checkResetTime s now).lastCheckedReset = some now := by
+  unfold checkResetTime
+  simp only [hrs]
+  repeat' split
+  all_goals rfl
+
 end Qfx.Sess
